@@ -319,7 +319,7 @@ static int refconv(const std::string &tcls, const Val &v, std::string &out)
 	default: isnum = false;
 	}
 	if (isnum) {
-		if (ir) { if (!isint) return 0; if (num < ir->lo || num > ir->hi) return 2; intout(ir->t, ir->f, (long long) num); return 1; }
+		if (ir) { if (num != floorl(num)) return 2; if (num < ir->lo || num > ir->hi) return 2; intout(ir->t, ir->f, (long long) num); return 1; }
 		if (tcls == "f") { if (fabsl(num) > FLT_MAX) return 2; float f = (float) num; if ((long double) f != num) return 0; out = fmt("f:%a", (double) f); return 1; }
 		if (tcls == "d") { out = fmt("d:%a", (double) num); return 1; }
 		return 0;
@@ -625,9 +625,8 @@ static bool judged_op(Run &r, const Model &m, Inst &x, size_t opi, const Snap &b
 				if (after.v[p] != want) { fail("readback-differs", "accepted, reads back " + after.v[p] + ", independent conversion of the input gives " + want); return false; }
 				r.count("read-back vs independent conversion checked");
 			} else if (k == 2) {
-				// float overflow to infinity is the conversion layer (C07's subject); digits given to a letter-coded attribute
-				// (graph align) are placeholders of that grammar: counted, not flagged
-				r.count("accepted numeral outside the property type's range (not flagged)");
+				// the input denotes a number the property type cannot hold: accepting it cannot read back as that number
+				fail("accepted-out-of-range", "accepted although the input is not representable in the property type, reads back " + after.v[p] + " (previous value " + before.v[p] + ")"); return false;
 			} else r.count("accepted without reference conversion");
 		} else r.count("accepted on attribute-text property (no reference conversion)");
 		if (fr.ret >= 0) {
